@@ -259,6 +259,7 @@ func runStoreProp(prop, tier string, r *rng) {
 		parFailCase(prop, 40, 31, 12, 4, false)
 	}
 	if prop == "C08" || prop == "C14" {
+		snapshotThenFlushCase(prop)
 		readDuringDeleteCase(prop, "plain", 12, 9)
 		readDuringDeleteCase(prop, "ctx", 12, 9)
 	}
@@ -1067,4 +1068,75 @@ func flushVsDeleteCase(prop string) {
 	v2 := view(st)
 	_ = st.Stop(ctx)
 	emit("%s kind=flushvsdelete => parked=%s delete=%s retrievable=%s afterrestart=%s", prop, was, errs(e), v1, v2)
+}
+
+// snapshotThenFlushCase: context-aware datastore with snapshot read transactions. The deleter is parked right after the
+// FIRST read transaction it opens; meanwhile an Append fills the write batch and everything pending is flushed. Whatever the
+// deleter reads afterwards - for its own look-ups, for the handlers, for moving the Tail - has to see those headers.
+func snapshotThenFlushCase(prop string) {
+	ctx := context.Background()
+	chain := vhdr.Chain("A", 9, storeT0, int64(time.Second), 0)
+	core := memds.NewCore()
+	dsi := contextds.WrapDatastore(&memds.Txn{Plain: memds.Plain{C: core}}).(ds.Batching)
+	st, err := store.NewStore[*vhdr.Header](dsi, store.WithWriteBatchSize(6), store.WithStoreCacheSize(2), store.WithIndexCacheSize(2))
+	if err != nil {
+		panic(err)
+	}
+	if err := func() error { sc, end := startCtx(); defer end(); return st.Start(sc) }(); err != nil {
+		panic(err)
+	}
+	defer st.Stop(ctx) //nolint:errcheck
+	_ = st.Append(ctx, chain[:5]...) // 1..5 pending
+	_ = st.Sync(ctx)
+	var mu sync.Mutex
+	unreadable, called := 0, 0
+	st.OnDelete(func(hctx context.Context, h uint64) error {
+		cctx, cancel := context.WithCancel(hctx)
+		cancel()
+		x, err := st.GetByHeight(cctx, h)
+		mu.Lock()
+		called++
+		if err != nil || x == nil || x.H != h {
+			unreadable++
+		}
+		mu.Unlock()
+		return nil
+	})
+	parked, release := make(chan struct{}), make(chan struct{})
+	var fired sync.Once
+	core.TxnGate = func() { fired.Do(func() { close(parked); <-release }) }
+	derr := make(chan error, 1)
+	go func() {
+		c, cancel := context.WithTimeout(ctx, 5*time.Second)
+		defer cancel()
+		derr <- st.DeleteRange(c, 1, 4)
+	}()
+	was := "yes"
+	select {
+	case <-parked:
+	case <-time.After(2 * time.Second):
+		was = "no"
+	}
+	actx, cancelA := context.WithTimeout(ctx, time.Second)
+	_ = st.Append(actx, chain[5:7]...) // 6,7: the batch of 6 is full, 1..7 go to disk
+	cancelA()
+	for i := 0; i < 200 && core.LogLen() == 0; i++ {
+		time.Sleep(time.Millisecond)
+	}
+	time.Sleep(20 * time.Millisecond)
+	close(release)
+	e := <-derr
+	core.TxnGate = nil
+	_ = st.Sync(ctx)
+	tl := uint64(0)
+	if t, err := st.Tail(ctx); err == nil {
+		tl = t.H
+	}
+	var left []string
+	for h := 1; h <= 7; h++ {
+		if x, err := st.GetByHeight(cancelled, uint64(h)); err == nil && x.H == uint64(h) {
+			left = append(left, itoa(h))
+		}
+	}
+	emit("%s kind=snapshotflush => parked=%s delete=%s tail=%d stored=%s handlercalls=%d unreadableAtCall=%d", prop, was, errs(e), tl, strings.Join(left, ","), called, unreadable)
 }
